@@ -9,6 +9,9 @@ import ClairModel.Proofs.Feeds
 import ClairModel.Gen.Severity
 import ClairModel.Gen.Feeds
 
+-- every variable of a property statement is bound explicitly: a misspelt name is an error, not a new variable
+set_option autoImplicit false
+
 namespace ClairModel.Props.C14
 open ClairModel.Feeds ClairModel.Gen.Severity ClairModel.Gen.Feeds
 
